@@ -15,7 +15,11 @@ for sid in ids:
     scratch = "/tmp/seedeval_%s_%d" % (sid, os.getpid())
     os.makedirs(scratch)
     subprocess.check_call(["rsync", "-a", "--exclude", ".git", "/repo/", scratch + "/repo/"])
-    r = subprocess.run(["patch", "-p1", "-s", "-i", os.path.join(d, "patch.diff")], cwd=scratch + "/repo", capture_output=True, text=True)
+    # patch_head.diff: the same change rebased on the repaired tree (when a fix: commit touched the same lines)
+    pf = os.path.join(d, "patch_head.diff")
+    if not os.path.exists(pf):
+        pf = os.path.join(d, "patch.diff")
+    r = subprocess.run(["patch", "-p1", "-s", "-i", pf], cwd=scratch + "/repo", capture_output=True, text=True)
     if r.returncode != 0:
         rows.append((sid, "patch does not apply on /repo HEAD", ""))
         meta["detected_by"] = "patch does not apply on current /repo HEAD"
